@@ -1,7 +1,8 @@
 """Configuration of the check for C03 (loaded by checklib/props.py; COMMON_TRUSTED / MODEL_TRUSTED are in scope)."""
 
 PROP = {'modules': ['AmVerif.Props.C03'],
- 'engines': [{'name': 'load', 'quick': 45, 'thorough': 1500}],
+ 'engines': [{'name': 'load', 'quick': 45, 'thorough': 1500},
+             {'name': 'src', 'tag': 'src-truncated', 'first': 201, 'quick': 1, 'thorough': 400, 'classes': ['truncated-member-read-as-prefix']}],
  'rule': 'cases 0-11 enumerate, for each of the 12 asset types M<e,d> (6 extension lists incl. [] and [""], default_value present or not), EVERY '
          'assignment of {absent, unreadable(kind), undecodable, ok} to the declared extensions, each followed by contains / get_cached / repair / '
          'retry; later cases: random blocks with odd ids (root, nested, unicode, spaces), compounds nested 1-4 deep over failing assets (error '
